@@ -1,12 +1,16 @@
 (* Correspondence entry point for C13.
    case   = VTup [VInt op; VStr how; on; left; right]
               op 0 = left.join(right, on, how)      op 1 = left.crossJoin(right)   (how/on ignored)
+              op 2 = left.join(left, on, how)       op 3 = left.crossJoin(left)    (self-joins; `right` ignored)
               on  = VNone | VStr name | VList [VStr name ...]
               left/right = VTup [VList [VTup [VStr name; VInt dtype; VBool nullable] ...];     bound schema
                                  VList [VList [VTup [cell ...] ...] ...]]                      partitions of rows
               cell = VNone | VInt | VStr          (rows carry their schema's names as __fields__)
-   result = VTup [schema fields; df.columns; df.schema.names; rows] with the rows (each VTup [names; values])
-            sorted by the total order below (the harness sorts the collected rows the same way), or VErr. *)
+   result = VTup [schema fields; df.columns; df.schema.names; rows; count; later] with the rows (each VTup [names;
+            values]) of the FIRST collect() sorted by the total order below (the harness sorts the collected rows the
+            same way); count = count() on the same object afterwards; later = one entry per further evaluation
+            of the same object (collect again, rdd.collect, filter, toLocalIterator, select/limit): VBool true when
+            that evaluation saw the same multiset as the first collect() -- or VErr. *)
 From Coq Require Import ZArith NArith List Bool String.
 Require Import PV.Base.Val PV.Gen.Joins PV.Model.SqlJoin.
 Import ListNotations.
@@ -113,11 +117,29 @@ Definition enc_cell (c : cell) : val :=
 Definition enc_field (f : field) : val := VTup [VStr (fname f); VInt (ftype f); VBool (fnullable f)].
 Definition enc_row (r : row) : val := VTup [VTup (map VStr (fst r)); VTup (map enc_cell (snd r))].
 
+Definition rows_eqb (a b : list row) : bool :=
+  match list_cmp row_cmp (sort_rows a) (sort_rows b) with Eq => true | _ => false end.
+
+(* the session the harness runs after the first collect() *)
+Definition session : list action := [ACount; ACollect; ARddCollect; AFilterTrue; ALocalIterator; ASelectAll].
+
+Definition enc_outcome (first : list row) (o : outcome) : val :=
+  match o with
+  | OCount (Ok n) => VInt (Z.of_nat n)
+  | OCount (Err e) => VErr e
+  | ORows (Ok (_, rows)) => VBool (rows_eqb first rows)
+  | ORows (Err e) => VErr e
+  end.
+
 Definition enc_result (r : result (schema * list row)) : val :=
   match r with
   | Ok (s, rows) =>
-      VTup [VList (map enc_field s); VList (map VStr (names_of s)); VList (map VStr (names_of s));
-            VList (map enc_row (sort_rows rows))]
+      match map (enc_outcome rows) (run_session r session) with
+      | count :: later =>
+          VTup [VList (map enc_field s); VList (map VStr (names_of s)); VList (map VStr (names_of s));
+                VList (map enc_row (sort_rows rows)); count; VList later]
+      | [] => VBad
+      end
   | Err e => VErr e
   end.
 
@@ -128,6 +150,8 @@ Definition run (c : val) : val :=
       | Some on, Some l, Some r =>
           if op =? 0 then enc_result (df_join l r on how_str)
           else if op =? 1 then enc_result (df_cross_join l r)
+          else if op =? 2 then enc_result (df_join l l on how_str)
+          else if op =? 3 then enc_result (df_cross_join l l)
           else VBad
       | _, _, _ => VBad
       end
